@@ -280,6 +280,8 @@ def ob_sequence(ename, spec, sname, seq, label):
                               "        c = e.copy(); ec = list(ee)",
                               "        for (who, tk), val in list(tog.items()):",
                               "            if who == 'e': tog[('c', tk)] = val",
+                              "        if any(isinstance(t, (fl.Linear, fl.Function)) and t.engine is not c for vv in c.variables for t in vv.terms): bad = 'step C: a Linear/Function term of the copy references another engine'; break",
+                              "        if any(id(t) in {id(u) for w in e.variables for u in w.terms} for vv in c.variables for t in vv.terms): bad = 'step C: the copy shares term objects with the original'; break",
                               "    elif o == 'CHECK_GRAPH':",
                               "        if any(isinstance(t, (fl.Linear, fl.Function)) and t.engine is not c for vv in c.variables for t in vv.terms): bad = 'term of the copy references another engine'; break",
                               "    elif o in ('E', 'W'): edit(tgt, o, q); eds.append(o)",
